@@ -67,6 +67,7 @@ func runC23(c *Ctx) {
 	w := c.W
 	pkg := "z/rsa"
 	c23Extras(c)
+	c23Extras3(c)
 	if w.Pkg(pkg) == nil {
 		c.Undecided("R-PRE", pkg, "package", "-", "not loaded")
 		return
